@@ -96,8 +96,8 @@ PROPS['C09'] = {
     'single_thread_scenarios': ('queue_history', 'queue_void_history'),
     'jobs': [
         J('hist_asan', 'c09.cpp', 'asan', [20000, 1000000], scenario='queue_history,queue_void_history', threads=1),
-        J('mt_asan', 'c09.cpp', 'asan', [30000, 1500000], scenario='queue_mt', threads=6),
-        J('mt_rel', 'c09.cpp', 'rel', [200000, 10000000], scenario='queue_mt', threads=6),
+        J('mt_asan', 'c09.cpp', 'asan', [30000, 1500000], scenario='queue_mt,queue_unblock_contended', threads=6),
+        J('mt_rel', 'c09.cpp', 'rel', [200000, 10000000], scenario='queue_mt,queue_unblock_contended', threads=6),
         J('mt_crel', 'c09.cpp', 'crel', [0, 4000000], scenario='queue_mt', threads=6, tiers=(T,)),
         J('hist_casan', 'c09.cpp', 'casan', [0, 500000], scenario='queue_history,queue_void_history', threads=1, tiers=(T,)),
     ],
